@@ -33,6 +33,13 @@ class Module:
     def label_sig(self, label, detail):
         return label
 
+    def timing_sensitive(self, rejection):
+        return False
+
+    def confirm_many(self, tname, keys, exe, sc):
+        """re-run timing-sensitive rejections [(scn, label)]; -> the set of those that recurred every time"""
+        return set(keys)
+
     def replay_module(self, first_line):
         """which trace specification validates a replay file (None = the module's own)"""
         return None
@@ -141,6 +148,21 @@ def run(mod, prop, tier, replay=None, dev=False):
                                        "trace": b["trace"], "detail": b["detail"], "gline": b["gline"]})
                 else:
                     other[lab.split("-")[0]] += 1
+        # rejections that an overloaded machine can produce on their own (a healthy party missing a deadline) are
+        # kept only if the same scenario is rejected again, every time, when it is run on its own
+        if not replay:
+            cand = collections.OrderedDict()
+            for r in rejections:
+                if mod.timing_sensitive(r):
+                    cand.setdefault(r["trace"], set()).add((r["scn"], r["label"]))
+            dropped = set()
+            for tname, keys in cand.items():
+                confirmed = mod.confirm_many(tname, sorted(keys), exe, sc)
+                for k in sorted(keys - confirmed):
+                    dropped.add((tname,) + k)
+                    log("[%s] note: %s in run %d of %s did not recur when the scenario was run again on its own "
+                        "(timing); dropped" % (prop, k[1], k[0], tname))
+            rejections = [r for r in rejections if (r["trace"], r["scn"], r["label"]) not in dropped]
         first = {}
         for r in rejections:
             first.setdefault(r["sig"], r)
